@@ -2,6 +2,7 @@ package world
 
 import (
 	"context"
+	"encoding/json"
 	"crypto/aes"
 	"crypto/cipher"
 	"encoding/base64"
@@ -375,6 +376,11 @@ func (m *msView) Store(_ context.Context, id string, created int64, e *appencryp
 		m.w.Foreign().InsertSame(id, created, e.ParentKeyMeta != nil)
 	}
 	_, exists := m.w.Store.Rows[id][created]
+	if m.w.KeepEKRJSON {
+		if b, err := json.Marshal(e); err == nil {
+			m.w.EKRJSON = append(m.w.EKRJSON, EKRDoc{ID: id, Created: created, JSON: b, EKR: *e})
+		}
+	}
 	if m.w.ScanLeaks {
 		m.w.scanLeak("metastore-row", fromEKR(e), false)
 		m.w.scanLeak("metastore-row.key", e.EncryptedKey, false)
